@@ -70,6 +70,56 @@ mod tests {
     }
 }
 
+#[cfg(test)]
+mod replay_tests {
+    use super::*;
+
+    fn all_paths() -> Vec<Path> {
+        let mut v = vec![];
+        for len in 1..=3usize {
+            for bits in 0..(1u8 << len) {
+                let comps: Vec<u8> = (0..len).map(|i| 1 + ((bits >> i) & 1)).collect();
+                v.push(path_of(&comps));
+            }
+        }
+        v
+    }
+    fn proper_prefix(a: &Path, b: &Path) -> bool {
+        a.len < b.len && (0..a.len).all(|k| a.comps[k] == b.comps[k])
+    }
+
+    /// Native confirmation device for counterexamples of `c42_rejected_2_paths` (used when Kani cannot build a playback
+    /// test): replays every 2-call history of that harness' input class and fails on the first inconsistent path.
+    #[test]
+    #[ignore = "replay device for c42_rejected_2_paths; passes on code where the property holds"]
+    fn paths_consistent_in_all_small_rejection_histories() {
+        let paths = all_paths();
+        for p1 in &paths {
+            for p2 in &paths {
+                if proper_prefix(p1, p2) || proper_prefix(p2, p1) {
+                    continue;
+                }
+                for fp in 0..=7u32 {
+                    for fd in 0..=7u32 {
+                        if fp == 0 && fd == 0 {
+                            continue;
+                        }
+                        let mut stack = Stack::new(Path::empty());
+                        let mut d = Recorder::new(fp, fd);
+                        for rel in [p1, p2] {
+                            let ok = stack.make_relative_path_current(rel, &mut d).is_ok();
+                            assert!(*stack.current() == *stack.current_relative(), "current() != root + current_relative() (paths {p1:?} {p2:?}, fp {fp}, fd {fd})");
+                            if ok {
+                                assert!(*stack.current_relative() == *rel, "current_relative() is not the last path (paths {p1:?} {p2:?}, fp {fp}, fd {fd})");
+                            }
+                        }
+                    }
+                }
+            }
+        }
+    }
+}
+
 #[cfg(kani)]
 pub mod proofs {
     use super::*;
